@@ -109,6 +109,11 @@ func runCases(casesPath string, outPath string) {
 		switch f[0] {
 		case "lex":
 			fmt.Fprintf(out, "lex %s %s\n", f[1], runLex(unhx(f[2])))
+		case "tsh":
+			for len(f) < 7 {
+				f = append(f, "")
+			}
+			fmt.Fprintf(out, "tsh %s %s\n", f[1], runTsh(f))
 		default:
 			fmt.Fprintf(out, "unknown-case-kind %s\n", f[0])
 		}
